@@ -32,7 +32,7 @@ ASSUMPTIONS = ['slices are the resolved form every caller passes: 0 <= start < s
                'X values and spacing are exactly representable in codes 68/73; frame spacing units equal the depth units, or are one of 4 pairs with an integral factor (INCH/.1IN, IN/.1IN, FEET/INCH, FEET/.1IN; X compared to 1e-9 relative)',
                'the empty channel subset is exercised for explicit-X log passes (the X channel alone is loaded); with implied X an empty subset reads nothing and is not asserted']
 SHARDS = {'quick': 4, 'thorough': 16}
-REQUIRED_CLASSES = {'implied-x': 1, 'table-between-the-data-records-of-a-pass': 1, 'implied-x-spacing-in-other-units-than-x': 1, 'implied-x-in-units-unknown-to-the-unit-table': 1, 'explicit-x': 1, 'load-step>1': 1, 'load-spans>=2-records': 1, 'channel-subset-with-gap': 1,
+REQUIRED_CLASSES = {'implied-x': 1, 'channel-subset-with-index>=8': 1, 'table-between-the-data-records-of-a-pass': 1, 'implied-x-spacing-in-other-units-than-x': 1, 'implied-x-in-units-unknown-to-the-unit-table': 1, 'explicit-x': 1, 'load-step>1': 1, 'load-spans>=2-records': 1, 'channel-subset-with-gap': 1,
                     'short-last-record': 1, 'multi-sample-channel': 1, 'dipmeter-channel': 1, 'tif': 1, '>=2-log-passes': 1,
                     'load-enters-record-after-first-frame': 1, 'up-log': 1, 'empty-channel-subset': 1,
                     'type-0-and-type-1-log-pass-interleaved': 1, 'log-pass-without-data-records': 1}
@@ -230,6 +230,7 @@ def step(s, op, cc):
     else:
         sel = sorted(set(c % nch for c in op['channels']))
         chs = list(sel)
+        cc.cls('channel-subset-with-index>=8', any(c >= 8 for c in sel))
         if not pm.lp['indirect'] and 0 not in sel:
             sel = [0] + sel
     cols = [c for ch in sel for c in range(*pm.cols[ch])]
@@ -319,7 +320,7 @@ class LoadMachine(HistoryMachine):
     START = staticmethod(start)
     STEP = staticmethod(step)
 
-    @initialize(init=G.lis_files(max_frames=50, pairs=True, empty_passes=True, x_units=G.X_UNITS_WITH_UNKNOWN, spacing_pairs=True, mid_tables=True))
+    @initialize(init=G.lis_files(max_frames=50, pairs=True, empty_passes=True, x_units=G.X_UNITS_WITH_UNKNOWN, spacing_pairs=True, mid_tables=True, max_channels=12))
     def init(self, init):
         self.begin(init)
 
@@ -328,7 +329,7 @@ class LoadMachine(HistoryMachine):
         self.op({'op': 'load', 'pass': p, 'all': True, 'channels': None})
 
     @rule(p=st.integers(0, 2), start=st.integers(0, 60), length=st.integers(0, 60), stepv=st.integers(0, 8), none_step=st.booleans(),
-          channels=st.one_of(st.none(), st.lists(st.integers(0, 5), min_size=1, max_size=4)))
+          channels=st.one_of(st.none(), st.lists(st.integers(0, 11), min_size=1, max_size=4)))
     def load(self, p, start, length, stepv, none_step, channels):
         self.op({'op': 'load', 'pass': p, 'start': start, 'length': length, 'step': stepv, 'none_step': none_step, 'channels': channels})
 
@@ -349,7 +350,7 @@ class LoadMachine(HistoryMachine):
     def read_accessors(self, p):
         self.op({'op': 'poke', 'pass': p})
 
-    @rule(p=st.integers(0, 2), channels=st.lists(st.integers(0, 5), min_size=1, max_size=3))
+    @rule(p=st.integers(0, 2), channels=st.lists(st.integers(0, 11), min_size=1, max_size=3))
     def load_channels(self, p, channels):
         self.op({'op': 'load', 'pass': p, 'all': True, 'channels': channels})
 
